@@ -3,10 +3,10 @@ from pyvc import native
 
 
 def run(rep, tier, seed):
-    for norm in (False, True):
+    for norm, copts in ((False, {}), (True, {}), (False, {'docstr': 'strict'}), (False, {'docstr': False})):
         sec = native.run('b_edit', 'main', {'props': ['C07'], 'tier': tier, 'seed': seed, 'ops': ['copy'],
-                                            'norm': norm})
-        sec['name'] += f'[norm={norm}]'
+                                            'norm': norm, 'copy_opts': copts})
+        sec['name'] += f'[norm={norm},{copts}]'
         sec['native_entry'] = ('b_edit', 'replay')
         rep.bounded(sec)
     rep.remainder = 'everything: no deductive fragment for C07 (frame over a 10-deep call graph of handlers)'
